@@ -175,8 +175,11 @@ Definition tree_body (qs : list (list Queue)) (rm : list Z) (t : TreeSt) : step 
     | Ok t' => Continue (mkT (t_sc t') (t_par t') (upd (t_tv t') b false))   (* 509 *)
     end
   end.
-(* the C++ loop has no bound; it ends when the moving costs have no negative cycle *)
-Definition tree_fuel (n : nat) : positive := Pos.of_succ_nat (n * n * n + 2 * n).
+(* the C++ loop (cpp:483) has no syntactic bound.  This budget, n * (2 * INT_MAX + 1) + 1 rounds (binary fuel, so
+   it costs nothing to carry), is PROVED sufficient on C13's domain (SspTree.v: tree_loop_terminates; SspTotal.v:
+   sspF_total; Properties_C13.v: c13_ssp_returns).  The cubic budget n^3 + 2n + 1 used here before is refuted by
+   SspFuelCex.v (a 12-sink problem needs 2049 rounds; the loop is Dijkstra with re-insertion over negative costs). *)
+Definition tree_fuel (n : nat) : positive := Z.to_pos (Z.of_nat n * (2 * INT_MAX + 1) + 1).
 Definition update_tree (s : St) : res St :=
   let rm := rem s in
   let t0 := mkT (map (fun r => if r >? 0 then 0 else INT_MAX) rm)         (* 474-479 *)
